@@ -332,7 +332,7 @@ def r11_4(ctx: Ctx):
         for s in seeds:
             n += 1
             i = evs.index(s)
-            guards = [e for e in evs[:i] if e.kind == 'guard' and e.depth == 0]
+            guards = [e for e in evs[:i] if e.kind == 'guard' and C.at_level(e, drv)]
             tl = [g.d['lit'] for g in guards if g.d['lit'].kind == 'truth' and g.d['lit'].pol and
                   isinstance(g.d['lit'].key, tuple) and g.d['lit'].key[0] == 'attr' and g.d['lit'].key[1] == key_of(selfv)]
             if not ctx.check(bool(tl), rid, drv.short, drv.loc(s.node), 'the seeding call is guarded by a flag of the '
@@ -360,8 +360,9 @@ def r11_4(ctx: Ctx):
         oki = v is not None and key_of(v) == TRUE
     ctx.check(oki, rid, init.short, init.loc(), 'the flag starts True', 'the first-iteration flag does not start True',
               key=f'{rid}::{init.short}::starts-true')
+    own = {roles.fq(h) for h in roles.helpers_of(drv)}
     for m in roles.attr_writers(flag, drv.cls):
-        if m.func is drv:
+        if roles.fq(m.func) in own:
             v = getattr(m.node, 'value', None)
             if isinstance(v, ast.Constant) and v.value is False:
                 continue
